@@ -269,10 +269,42 @@ func SoftTypeOf(ts *TypeSpec) jsonapi.Type {
 // through BuildType; the FromOne side of their relationships (which tags cannot
 // express) is then completed from the spec, as the library's own tests do.
 func BuildSchema(specs []TypeSpec) *SchemaSpec {
+	return BuildSchemaWithScaffold(specs, -1)
+}
+
+// scaffoldType is a type that only exists while a schema is being built.
+const scaffoldType = "zz--scaffold"
+
+// BuildSchemaWithScaffold builds the schema like BuildSchema; with at >= 0 a
+// throw-away type is added before the type at that index (after the last one
+// when at == len(specs)) and removed again once all types are in: the result
+// is the same schema, reached through a longer history of edits.
+func BuildSchemaWithScaffold(specs []TypeSpec, at int) *SchemaSpec {
 	ss := &SchemaSpec{Types: specs, Schema: &jsonapi.Schema{}}
+
+	scaffold := func() {
+		err := ss.Schema.AddType(jsonapi.Type{Name: scaffoldType, Attrs: map[string]jsonapi.Attr{"x": {Name: "x", Type: jsonapi.AttrTypeInt, Nullable: true}}})
+		if err != nil {
+			panic(fmt.Sprintf("gen: AddType(scaffold): %v", err))
+		}
+	}
+
+	defer func() {
+		if at >= 0 {
+			ss.Schema.RemoveType(scaffoldType)
+		}
+	}()
+
+	if at >= len(specs) {
+		defer scaffold()
+	}
 
 	for i := range ss.Types {
 		ts := &ss.Types[i]
+
+		if i == at {
+			scaffold()
+		}
 
 		var typ jsonapi.Type
 
@@ -474,7 +506,14 @@ func CoherentSchema(t *rapid.T, o SchemaOpts) *SchemaSpec {
 		}
 	}
 
-	return BuildSchema(specs)
+	// One schema in four is reached through a longer history: a throw-away
+	// type is added somewhere and removed at the end.
+	at := -1
+	if rapid.IntRange(0, 3).Draw(t, "scaffold") == 0 {
+		at = rapid.IntRange(0, len(specs)).Draw(t, "scaffold-at")
+	}
+
+	return BuildSchemaWithScaffold(specs, at)
 }
 
 // NewResource creates an empty resource of the type: a *Wrapper around a fresh
